@@ -152,6 +152,29 @@ def c02_spellings():
     return out
 
 
+C02_PARAM_TYPES = [("uint8_t", "uint8_t"), ("int8_t", "uint16_t"), ("int16_t", "int16_t"), ("uint16_t", "int64_t")]
+
+
+def c02_subs():
+    """Every operator applied directly to the (narrow) parameters of a sub-routine: promotion and common type apply to parameters
+    exactly as to locals."""
+    subs = {}
+    names = {"+": "add", "-": "sub", "*": "mul", "&": "and", "|": "or", "^": "xor", "<<": "shl", ">>": "shr", "<": "lt", ">": "gt", "<=": "le", ">=": "ge",
+             "==": "eq", "!=": "ne", "&&": "land", "||": "lor"}
+    for k, (tx, ty) in enumerate(C02_PARAM_TYPES):
+        for op, nm in names.items():
+            rhs = "(y & 7)" if op in SHIFT else "y"
+            subs[f"vf_p{k}_{nm}"] = dict(return_type="int64_t", params=[f"{tx} x", f"{ty} y"], code=f"{{ return x {op} {rhs}; }}")
+        for u, nm in (("~", "not"), ("-", "neg"), ("!", "lnot")):
+            subs[f"vf_p{k}_{nm}"] = dict(return_type="int64_t", params=[f"{tx} x", f"{ty} y"], code=f"{{ return {u}x; }}")
+        subs[f"vf_p{k}_cond"] = dict(return_type="int64_t", params=[f"{tx} x", f"{ty} y"], code="{ return (x > 3) ? x : y; }")
+    return subs
+
+
+def c02_param_calls():
+    return [f"{{ RddV = {n}(RsV, RtV); }}" for n in c02_subs()]
+
+
 def c02_const_truth():
     """&& and || with a compile-time truth value on one side: still the operator's C truth table."""
     out = []
@@ -164,7 +187,7 @@ def c02_const_truth():
 def c02(tier):
     rng = random.Random(seed() * 7919 + 2)
     nr = c02_narrow()
-    return c02_depth1() + c02_const_sides() + c02_const_truth() + c02_spellings() + (nr if tier == "thorough" else nr[::3]) + c02_depth2(tier, rng) + c02_random(tier, rng)
+    return c02_depth1() + c02_const_sides() + c02_const_truth() + c02_spellings() + c02_param_calls() + (nr if tier == "thorough" else nr[::3]) + c02_depth2(tier, rng) + c02_random(tier, rng)
 
 
 def wf_subs():
@@ -447,6 +470,16 @@ def c05_struct():
     out += ["{ RxV = 1; /* one */ RyV = RyV + 2; }", "{ /* a */ RxV = 1; /* b */ RyV = RyV + 2; /* c */ }", "{ RxV = 1; /* a */ RyV = RyV + 2; /* b */ RxV = RxV + RyV; }",
             "{ if (RsV) { RxV = 1; } /* x */ else { RxV = 2; } /* y */ RyV = RyV + RxV; }", "{ RxV = 1; // line\n RyV = RyV + 2; }",
             "{ for (i = 0; i < 2; i++) { /* p */ RxV = RxV + 1; /* q */ } }", "{ RxV = /* in */ 3 /* side */ + RsV; }", "{ RxV = 1; /* a * b / c */ RyV = RyV + 2; /**/ RxV = 7; }"]
+    for v_ in ["P0", "P3", "R3", "R13", "M0", "HEX_REG_ALIAS_LR", "HEX_REG_ALIAS_USR", "PeV", "CdV"]:
+        out.append(f"{{ {v_} = RsV; RxV = {v_}; }}")
+        out.append(f"{{ {v_} = RsV; RxV = {v_}; {v_} = RtV; RyV = RyV + {v_}; }}")
+        out.append(f"{{ {v_} = RsV; if (RuV) {{ {v_} = RtV; }} RxV = {v_} + 1; }}")
+        out.append(f"{{ {v_} = RsV; {v_} = {v_} + 1; RxV = {v_}; }}")
+    # loop steps that are more than one effect
+    out += [f"{{ {pre} int j; j = 0; for (i = 0; i < 3; i += j++) {{ RxV = RxV + i; i = i + 1; }} RyV = RyV + j; }}",
+            f"{{ {pre} int j; j = 1; for (i = 0; i < 4; i += j++) {{ RxV = RxV * 2 + i; }} RyV = RyV + j; }}",
+            f"{{ {pre} for (i = 0; i < 3; i = i + clz32(n | 0x40000000)) {{ RxV = RxV + i; }} }}",
+            f"{{ {pre} int j; for (i = 0; i < 2; i++, j = i) {{ RxV = RxV + 1; }} }}" if False else f"{{ {pre} for (i = 0; i < 3; i += ({{ n = n + 1; 1; }})) {{ RxV = RxV + n; }} }}"]
     out.append("{ if (RssV) { RxV = 1; } else { RxV = 2; } }")
     out.append("{ if (RssV & 0xffffffff00000000ULL) { RxV = 1; } else { RxV = 2; } }")
     out.append("{ RxV = (RssV << 32) ? 1 : 2; }")
@@ -862,7 +895,8 @@ C15_STMTS = [
     "*p = 3;", "RxV = *p;", "RxV = &n;", "a[0] = n;", "RxV = a[1];", "RxV = a[n] + 1;", "s.f = 1;", "RxV = s.f;", "RxV = p->f;",
     "p->f = n;", "++n;", "--n;", "RxV = ++n;", "RxV = --n + 1;",
     "for (;;) { RxV = 1; }", "for (i = 0; ; i++) { RxV = 1; }", "for (i = 0, j = 0; i < 2; i++) { RxV = j; }",
-    "for (i = 0; i < 2; i++, j++) { RxV = j; }", "RxV = clz32((n, 3));", "RxV = n ? (RyV = 1, 2) : 3;",
+    "for (i = 0; i < 2; i++, j++) { RxV = j; }", "for (i = 0; i < 3; i += n++) { RxV = RxV + i; i = i + 1; }", "for (i = 0; i < 3; i = i + clz32(n | 0x40000000)) { RxV = RxV + i; }",
+    "for (i = 0; i < 3; RxV = i = i + 1) { RyV = RyV + i; }", "RxV = clz32((n, 3));", "RxV = n ? (RyV = 1, 2) : 3;",
     "int q = 1, r = 2;", "int arr[2];", "int *ptr;", "typedef int t;", "static int z = 1;",
     "RxV = (int32_t){n};", "RxV = sizeof(int[2]);", "asm(\"nop\");", "RxV = n ?: 3;", "RxV = __builtin_clz(n);",
     "RxV = RyV = n = 7;", "n = RxV = RyV = RtV;", "n++ + RxV++;", "clz32(n) + clo32(RxV);",
